@@ -128,6 +128,13 @@ class ProgGen:
             if vars_ and rnd.random() < 0.4:
                 # variable-variable aliasing, in both directions
                 return ('call', op, [('V', rnd.choice(vars_)), ('V', rnd.choice(vars_))])
+            if rnd.random() < 0.2:
+                # two structures with the same name: same or different number of arguments, common prefix unifiable
+                f = rnd.choice(['f', 'g'])
+                n1, n2 = rnd.choice([(1, 2), (2, 1), (2, 3), (1, 1), (2, 2), (0, 1)])
+                a1 = [sterm(rnd, vars_, 0, 0.7) for _ in range(n1)]
+                a2 = [a if rnd.random() < 0.5 else sterm(rnd, vars_, 0, 0.7) for a in (a1 + a1)[:n2]]
+                return ('call', op, [('F', f, a1), ('F', f, a2)])
             return ('call', op, [sterm(rnd, vars_, 1, 0.7), sterm(rnd, vars_, 1, 0.4)])
         if r < 0.24 and ('same', 2) in self.preds:
             return ('call', 'same', [('V', rnd.choice(vars_)) if vars_ else ('_',), sterm(rnd, vars_, 1, 0.8)])
